@@ -487,7 +487,8 @@ def grid_search(model_cls: Type[Model], parameters: Union[ParameterList, Dict[st
     target_score = maxsize if is_min else -maxsize
     for i, result in enumerate(results):
         result['score'] = _score_model_for_search(result['records'], mode)
-        if (is_min and result['score'] < target_score) or (not is_min and result['score'] > target_score):
+        if index == -1 or (is_min and result['score'] < target_score) or \
+                (not is_min and result['score'] > target_score):
             index, target_score = i, result['score']
 
     return results[index], results  # Return best parameter and summary of all results.
